@@ -1,1 +1,314 @@
-// harnesses for filter (cfg(kani) only)
+// Harnesses for src/query/filter.rs (cfg(kani) only): C05 (Boolean algebra, existence, child selection, scoping), C01/C02 filter part.
+#![allow(unused_imports, dead_code, unused_assignments, unused_mut)]
+use super::*;
+use crate::parser::model::{
+    Comparable, Comparison, FilterAtom, Literal, Segment, Selector, SingularQuery, SingularQuerySegment, Test,
+};
+use crate::verif_common::*;
+use core::mem::forget;
+
+/// atom whose truth value is the free variable $x: the existence test `@`
+/// (always selects the current node) negated iff !x.
+macro_rules! atom {
+    ($slot:ident, $x:expr) => {
+        Filter::Atom(FilterAtom::Test { expr: tbox(&mut $slot), not: !$x })
+    };
+}
+
+macro_rules! c05_bool {
+    ($name:ident, |$x0:ident, $x1:ident, $x2:ident, $x3:ident, $c0:ident, $c1:ident, $c2:ident, $c3:ident, $b0:ident, $b1:ident, $b2:ident| $build:block, $spec:expr) => {
+        proof!($name, 5, {
+            let root = Mini::Null;
+            let node = Mini::Null;
+            let ($x0, $x1, $x2, $x3): (bool, bool, bool, bool) = (kani::any(), kani::any(), kani::any(), kani::any());
+            let mut $c0 = Test::RelQuery(Vec::new());
+            let mut $c1 = Test::RelQuery(Vec::new());
+            let mut $c2 = Test::RelQuery(Vec::new());
+            let mut $c3 = Test::RelQuery(Vec::new());
+            let mut $b0 = [PADF, PADF, PADF, PADF];
+            let mut $b1 = [PADF, PADF, PADF, PADF];
+            let mut $b2 = [PADF, PADF, PADF, PADF];
+            let f: Filter = $build;
+            let r = f.filter_item(Pointer::empty(&node), &root);
+            assert!(r == $spec, "logical expression does not follow Boolean algebra");
+            kani::cover!(r, "expression true");
+            kani::cover!(!r, "expression false");
+            forget(f);
+            forget($b0);
+            forget($b1);
+            forget($b2);
+        });
+    };
+}
+
+// (a && b) || c
+c05_bool!(c05_bool_and_or, |a, b, c, d, c0, c1, c2, c3, and0, or0, or1| {
+    and0[0] = atom!(c0, a);
+    and0[1] = atom!(c1, b);
+    or0[0] = Filter::And(cvec(&mut and0, 2));
+    or0[1] = atom!(c2, c);
+    Filter::Or(cvec(&mut or0, 2))
+}, (a && b) || c);
+
+// a || (b && c)
+c05_bool!(c05_bool_or_and, |a, b, c, d, c0, c1, c2, c3, and0, or0, or1| {
+    and0[0] = atom!(c1, b);
+    and0[1] = atom!(c2, c);
+    or0[0] = atom!(c0, a);
+    or0[1] = Filter::And(cvec(&mut and0, 2));
+    Filter::Or(cvec(&mut or0, 2))
+}, a || (b && c));
+
+// a && b && c, a || b || c
+c05_bool!(c05_bool_and3, |a, b, c, d, c0, c1, c2, c3, and0, or0, or1| {
+    and0[0] = atom!(c0, a);
+    and0[1] = atom!(c1, b);
+    and0[2] = atom!(c2, c);
+    Filter::And(cvec(&mut and0, 3))
+}, a && b && c);
+c05_bool!(c05_bool_or3, |a, b, c, d, c0, c1, c2, c3, and0, or0, or1| {
+    or0[0] = atom!(c0, a);
+    or0[1] = atom!(c1, b);
+    or0[2] = atom!(c2, c);
+    Filter::Or(cvec(&mut or0, 3))
+}, a || b || c);
+
+// !(a || b) && c   (parenthesised group with negation)
+c05_bool!(c05_bool_not_paren, |a, b, c, d, c0, c1, c2, c3, and0, or0, or1| {
+    or0[0] = atom!(c0, a);
+    or0[1] = atom!(c1, b);
+    and0[0] = Filter::Atom(FilterAtom::filter(Filter::Or(cvec(&mut or0, 2)), true));
+    and0[1] = atom!(c2, c);
+    Filter::And(cvec(&mut and0, 2))
+}, !(a || b) && c);
+
+// (a || b) && (c || d)   (two parenthesised groups, no negation)
+c05_bool!(c05_bool_paren_paren, |a, b, c, d, c0, c1, c2, c3, and0, or0, or1| {
+    or0[0] = atom!(c0, a);
+    or0[1] = atom!(c1, b);
+    or1[0] = atom!(c2, c);
+    or1[1] = atom!(c3, d);
+    and0[0] = Filter::Atom(FilterAtom::filter(Filter::Or(cvec(&mut or0, 2)), false));
+    and0[1] = Filter::Atom(FilterAtom::filter(Filter::Or(cvec(&mut or1, 2)), false));
+    Filter::And(cvec(&mut and0, 2))
+}, (a || b) && (c || d));
+
+// !(!(a)) || !(b && c)   (double negation, negated conjunction); nodes in typed slots
+c05_bool!(c05_bool_double_not, |a, b, c, d, c0, c1, c2, c3, and0, or0, or1| {
+    or1[0] = atom!(c0, a);
+    or1[1] = Filter::Atom(FilterAtom::Filter { expr: tbox(&mut or1[0]), not: true });
+    and0[0] = atom!(c1, b);
+    and0[1] = atom!(c2, c);
+    or1[2] = Filter::And(cvec(&mut and0, 2));
+    or0[0] = Filter::Atom(FilterAtom::Filter { expr: tbox(&mut or1[1]), not: true });
+    or0[1] = Filter::Atom(FilterAtom::Filter { expr: tbox(&mut or1[2]), not: true });
+    Filter::Or(cvec(&mut or0, 2))
+}, a || !(b && c));
+
+// The parser's constructors keep the operand and the negation flag exactly
+// (structural check; with the evaluation harnesses above - FilterAtom::Filter
+// {expr, not} evaluates to not xor eval(expr) - nested negations compose).
+proof!(c05_ctor_paren, 5, {
+    let (x, n1, n2): (bool, bool, bool) = (kani::any(), kani::any(), kani::any());
+    let mut t0 = Test::RelQuery(Vec::new());
+    let mut inner = atom!(t0, x);
+    let inner_ptr = &inner as *const Filter;
+    let mid = Filter::Atom(FilterAtom::Filter { expr: tbox(&mut inner), not: n1 });
+    let outer = FilterAtom::filter(mid, n2);
+    let mut ok = false;
+    if let FilterAtom::Filter { expr, not } = &outer {
+        if *not == n2 {
+            if let Filter::Atom(FilterAtom::Filter { expr: e2, not: m }) = &**expr {
+                ok = *m == n1 && core::ptr::eq(&**e2 as *const Filter, inner_ptr);
+            }
+        }
+    }
+    assert!(ok, "FilterAtom::filter does not keep its operand and negation flag");
+    let t = FilterAtom::test(Test::RelQuery(Vec::new()), n1);
+    let ok2 = matches!(&t, FilterAtom::Test { expr, not } if *not == n1 && matches!(&**expr, Test::RelQuery(v) if v.is_empty()));
+    assert!(ok2, "FilterAtom::test does not keep its operand and negation flag");
+    kani::cover!(n1 && n2, "double negation");
+    forget(outer);
+    forget(t);
+});
+
+// ---------------------------------------------------------------------------
+// Existence tests: `?@.a` is true iff the member exists, whatever its value.
+// child = {<member>: <value>}; query member name is "a".
+macro_rules! c05_exist {
+    ($name:ident, $member:expr, |$sv:ident| $val:expr) => {
+        proof!($name, 6, {
+            let root = Mini::Null;
+            let mut $sv = Scratch::new();
+            let mut sc = Scratch::new();
+            let v: Mini = $val;
+            sc.set(0, $member, v);
+            let child = sc.obj(1);
+            let not: bool = kani::any();
+            let mut seg = m_name("a");
+            let mut t = Test::RelQuery(seg_vec(&mut seg, 1));
+            let atom = FilterAtom::Test { expr: tbox(&mut t), not };
+            let r = atom.process(State::data(&root, Data::Ref(Pointer::empty(&child))));
+            let got = matches!(r.data, Data::Value(Mini::Bool(true)));
+            let exists = $member == "a";
+            assert!(got == (exists ^ not), "existence test must be true exactly when the query selects a node");
+            kani::cover!(not, "negated");
+            kani::cover!(!not, "plain");
+            forget(r);
+            forget(atom);
+            forget(sc);
+            forget($sv);
+        });
+    };
+}
+c05_exist!(c05_exist_null, "a", |sv| Mini::Null);
+c05_exist!(c05_exist_false, "a", |sv| Mini::Bool(kani::any()));
+c05_exist!(c05_exist_int, "a", |sv| Mini::Int(kani::any()));
+c05_exist!(c05_exist_str, "a", |sv| Mini::Str(leak_str(any_ascii(1))));
+c05_exist!(c05_exist_empty_arr, "a", |sv| sv.arr(0));
+c05_exist!(c05_exist_arr, "a", |sv| { sv.elems[0] = Mini::Null; sv.arr(1) });
+c05_exist!(c05_exist_empty_obj, "a", |sv| sv.obj(0));
+c05_exist!(c05_exist_missing, "b", |sv| Mini::Int(kani::any()));
+
+// ---------------------------------------------------------------------------
+// Child selection: a filter keeps exactly the children for which the
+// expression holds, in order; `@` is the child. Predicate `@ <op> c`.
+macro_rules! c05_select_arr {
+    ($name:ident, $op:expr, $spec:expr) => {
+        proof!($name, 6, {
+            let root = Mini::Null;
+            let mut sc = Scratch::new();
+            let (e0, e1, e2, c): (i64, i64, i64, i64) = (kani::any(), kani::any(), kani::any(), any_ijson());
+            sc.elems[0] = Mini::Int(e0);
+            sc.elems[1] = Mini::Int(e1);
+            sc.elems[2] = Mini::Int(e2);
+            let node = sc.arr(3);
+            let mut e = m_sqs_index(0);
+            let mut cmp = MCmp { tag: $op, a: mc_sq(SQ_CURRENT, sqs_empty(&mut e)), b: mc_lit(Literal::Int(c)) };
+            let f = Filter::Atom(FilterAtom::Comparison(cmp_box(&mut cmp)));
+            let r = f.process(State::data(&root, Data::Ref(Pointer::new(&node, String::from("p")))));
+            let mut got = [core::ptr::null::<Mini>(); 8];
+            let n = nodes_of(&r.data, &mut got);
+            let spec = $spec;
+            let keep = [spec(e0, c), spec(e1, c), spec(e2, c)];
+            let mut k = 0;
+            let mut i = 0;
+            while i < 3 {
+                if keep[i] {
+                    assert!(k < n && core::ptr::eq(got[k], &sc.elems[i]), "filter result differs from the children satisfying the expression (order / identity)");
+                    k += 1;
+                }
+                i += 1;
+            }
+            assert!(n == k, "filter kept a child that does not satisfy the expression");
+            kani::cover!(n == 0, "none kept");
+            kani::cover!(n == 3, "all kept");
+            kani::cover!(n == 2 && !keep[1], "middle child dropped");
+            forget(r);
+            forget(f);
+            forget(sc);
+        });
+    };
+}
+c05_select_arr!(c05_select_arr_gt, OP_GT, |e: i64, c: i64| e > c);
+c05_select_arr!(c05_select_arr_eq, OP_EQ, |e: i64, c: i64| e == c);
+c05_select_arr!(c05_select_arr_lte, OP_LTE, |e: i64, c: i64| e <= c);
+c05_select_arr!(c05_select_arr_ne, OP_NE, |e: i64, c: i64| e != c);
+
+// object children: member values, document order
+proof!(c05_select_obj_lt, 6, {
+    let root = Mini::Null;
+    let mut sc = Scratch::new();
+    let (e0, e1, c): (i64, i64, i64) = (kani::any(), kani::any(), any_ijson());
+    sc.set(0, "x", Mini::Int(e0));
+    sc.set(1, "y", Mini::Int(e1));
+    let node = sc.obj(2);
+    let mut e = m_sqs_index(0);
+    let mut cmp = MCmp { tag: OP_LT, a: mc_sq(SQ_CURRENT, sqs_empty(&mut e)), b: mc_lit(Literal::Int(c)) };
+    let f = Filter::Atom(FilterAtom::Comparison(cmp_box(&mut cmp)));
+    let r = f.process(State::data(&root, Data::Ref(Pointer::new(&node, String::from("p")))));
+    let mut got = [core::ptr::null::<Mini>(); 8];
+    let n = nodes_of(&r.data, &mut got);
+    let keep = [e0 < c, e1 < c];
+    let mut k = 0;
+    let mut i = 0;
+    while i < 2 {
+        if keep[i] {
+            assert!(k < n && core::ptr::eq(got[k], &sc.o.vals[i]), "filter result differs from the member values satisfying the expression");
+            k += 1;
+        }
+        i += 1;
+    }
+    assert!(n == k, "filter kept a member value that does not satisfy the expression");
+    kani::cover!(n == 2, "both kept");
+    kani::cover!(n == 1 && keep[1], "only second kept");
+    forget(r);
+    forget(f);
+    forget(sc);
+});
+
+// a filter applied to a scalar selects nothing
+proof!(c05_select_scalar, 6, {
+    let root = Mini::Null;
+    let node = Mini::Int(kani::any());
+    let (mut e1, mut e2) = (m_sqs_index(0), m_sqs_index(0));
+    let mut cmp = MCmp { tag: OP_EQ, a: mc_sq(SQ_CURRENT, sqs_empty(&mut e1)), b: mc_sq(SQ_CURRENT, sqs_empty(&mut e2)) };
+    let f = Filter::Atom(FilterAtom::Comparison(cmp_box(&mut cmp)));
+    let r = f.process(State::data(&root, Data::Ref(Pointer::new(&node, String::from("p")))));
+    let mut got = [core::ptr::null::<Mini>(); 8];
+    let n = nodes_of(&r.data, &mut got);
+    assert!(n == 0, "a filter applied to a scalar must select nothing");
+    kani::cover!(true, "end reached");
+    forget(r);
+    forget(f);
+});
+
+// ---------------------------------------------------------------------------
+// Scoping: `$` is the document root even when the filter runs below it,
+// `@` is the child under test. root = {"j": b, "k": r}, filter on an array [x0, x1].
+macro_rules! c05_scope {
+    ($name:ident, $swap:expr) => {
+        proof!($name, 6, {
+            let mut sr = Scratch::new();
+            let mut sx = Scratch::new();
+            let (r0, x0, x1): (i64, i64, i64) = (kani::any(), kani::any(), kani::any());
+            sx.elems[0] = Mini::Int(x0);
+            sx.elems[1] = Mini::Int(x1);
+            let xs = sx.arr(2);
+            sr.set(0, "j", Mini::Bool(kani::any()));
+            sr.set(1, "k", Mini::Int(r0));
+            let root = sr.obj(2);
+            let mut rseg = m_sqs_name("k");
+            let mut e = m_sqs_index(0);
+            let (ta, tb) = if $swap { (SQ_ROOT, SQ_CURRENT) } else { (SQ_CURRENT, SQ_ROOT) };
+            let va = if $swap { sqs_vec(&mut rseg, 1) } else { sqs_empty(&mut e) };
+            let vb = if $swap { sqs_empty(&mut e) } else { sqs_vec(&mut rseg, 1) };
+            let mut cmp = MCmp { tag: OP_EQ, a: mc_sq(ta, va), b: mc_sq(tb, vb) };
+            let f = Filter::Atom(FilterAtom::Comparison(cmp_box(&mut cmp)));
+            // the node the filter is applied to lies below the root in a real query; for
+            // this unit only `root` (what `$` must denote) and the node itself matter
+            let r = f.process(State::data(&root, Data::Ref(Pointer::new(&xs, String::from("p")))));
+            let mut got = [core::ptr::null::<Mini>(); 8];
+            let n = nodes_of(&r.data, &mut got);
+            let keep = [x0 == r0, x1 == r0];
+            let mut k = 0;
+            let mut i = 0;
+            while i < 2 {
+                if keep[i] {
+                    assert!(k < n && core::ptr::eq(got[k], &sx.elems[i]), "`@ == $.k`: children equal to the root's member must be kept");
+                    k += 1;
+                }
+                i += 1;
+            }
+            assert!(n == k, "`@ == $.k`: a child different from the root's member was kept");
+            kani::cover!(n == 2, "both children equal $.k");
+            kani::cover!(n == 1, "one child equals $.k");
+            forget(r);
+            forget(f);
+            forget(sr);
+            forget(sx);
+        });
+    };
+}
+c05_scope!(c05_scope_cur_root, false);
+c05_scope!(c05_scope_root_cur, true);
